@@ -92,6 +92,8 @@ def _rej_cfgs(tier):
         enc, _ = codes.try_build(c)
         if enc is not None and tuple(enc.generator_matrix.shape) == (1, 1):
             continue  # block size 1: every length is admissible, nothing to reject
+        if enc is not None and c.family == "rm" and enc.generator_matrix.shape[0] == 1 and enc.generator_matrix.shape[1] > 8:
+            continue  # k = 1 (no forward rejection to state) and the inverse clauses are skipped for n > 8
         out.append(c)
     return out
 
